@@ -60,7 +60,7 @@ def run(prop, tier, seed, ctx):
         if m["kind"] == "harness-crash":
             raise MachineryError("history %s crashed the harness: %s" % (m["hist"], m["detail"]))
         culprit = sorted({p[0] for p in m["previous"]})
-        if "real_modules" in m["dirty_at_start"] and any(p[1] == "realmut" for p in m["previous"]):
+        if "real_modules" in m["dirty_at_start"] and any(p[1] in ("realmut", "modsetT") for p in m["previous"]):
             ctx.violation("C13|real-module-mutated-by-earlier-submission", "grading %s at position %d of history %s differs from its "
                           "fresh-interpreter result in %s: observed %s baseline %s" % (m["pair"], m["position"], m["hist"], m["fields"],
                           json.dumps(m["observed"])[:200], json.dumps(m["baseline"])[:200]), m)
